@@ -212,6 +212,9 @@ def reconfigure_run(rng):
 
 
 def run_shard(campaign, shard, nshards, seed, tier):
+    if campaign == 'api':
+        import apiuse
+        return apiuse.run_api('C15', shard, nshards, seed, tier)
     if campaign == 'reconfigure':
         part = Part()
         rng = random.Random('%s/%s/%s' % (seed, campaign, shard))
@@ -247,4 +250,6 @@ def run(ctx):
     run_sharded(ctx, 'C15', 'throttle')
     run_sharded(ctx, 'C15', 'disabled')
     run_sharded(ctx, 'C15', 'reconfigure')
-    return RULE, ASSUME
+    run_sharded(ctx, 'C15', 'api', nshards=2)
+    import apiuse
+    return RULE + apiuse.rule_text('C15'), ASSUME
